@@ -83,6 +83,7 @@ def match_known(known, v):
 
 
 CHUNK = int(os.environ.get('VERIF_CHUNK', '20'))
+_KNOWN = load_known()
 
 
 def run_jobs(jobs, njobs, progress=None, wall=None, stop_on_prop=None):
@@ -129,7 +130,7 @@ def run_jobs(jobs, njobs, progress=None, wall=None, stop_on_prop=None):
                 continue
             for i, r in zip(idxs, rr['results']):
                 results[i] = r
-                if stop_on_prop and any(v['property'] == stop_on_prop for v in r.get('violations') or []):
+                if stop_on_prop and any(v['property'] == stop_on_prop and not match_known(_KNOWN, v) for v in r.get('violations') or []):
                     stop.set()  # sensitivity self-test: the first violation is all that is asked for
 
     threads = [threading.Thread(target=worker, args=(s,), daemon=True) for s in servers]
